@@ -1032,13 +1032,18 @@ func vspRunScenario(line string) (out string) {
 		w.mu.Unlock()
 	}()
 	if sc.Obs != 0 {
-		// observers: every protocol x direction, subscribed (server side, with join/leave pushes) to every channel
+		// observers: every protocol x direction (two of each), subscribed (server side, with join/leave pushes) to every channel
 		// before the scenario starts; they stay subscribed to the end and decode what they receive
 		for _, k := range []struct {
 			name  string
 			proto ProtocolType
 			uni   bool
-		}{{"jb", ProtocolTypeJSON, false}, {"pu", ProtocolTypeProtobuf, true}, {"ju", ProtocolTypeJSON, true}, {"pb", ProtocolTypeProtobuf, false}} {
+		}{
+			// small Go maps iterate in insertion order from a random start: the subscription order below makes
+			// neighbours that differ in protocol (jb/pu/ju/pb) as well as neighbours that differ ONLY in
+			// direction (ju2/jb2, pb2/pu2) for the hub's encoded-payload caches
+			{"jb", ProtocolTypeJSON, false}, {"pu", ProtocolTypeProtobuf, true}, {"ju", ProtocolTypeJSON, true}, {"pb", ProtocolTypeProtobuf, false},
+			{"ju2", ProtocolTypeJSON, true}, {"jb2", ProtocolTypeJSON, false}, {"pb2", ProtocolTypeProtobuf, false}, {"pu2", ProtocolTypeProtobuf, true}} {
 			otr := &vspTransport{proto: k.proto, uni: k.uni}
 			octx, ocancel := context.WithCancel(context.Background())
 			defer ocancel()
